@@ -243,12 +243,16 @@ def check_chars(res: JobResult, endian):
 
 def leb_values():
     vals = set(range(-(1 << 14) - 2, (1 << 14) + 3))
-    for j in range(1, 11):
+    for j in range(1, 41):  # up to 2^280: the encoding has no widest value
         for d in (-1, 0, 1):
             vals.add((1 << (7 * j)) + d)
             vals.add(-(1 << (7 * j)) + d)
             vals.add((1 << (7 * j - 1)) + d)
             vals.add(-(1 << (7 * j - 1)) + d)
+    for n in (63, 64, 65, 126, 127, 128, 129, 255, 256, 257):
+        for d in (-1, 0, 1):
+            vals.add((1 << n) + d)
+            vals.add(-(1 << n) + d)
     return sorted(vals)
 
 
@@ -284,7 +288,7 @@ def check_leb(res: JobResult, endian):
             except Exception as ex:  # noqa: BLE001
                 viol(res, "leb:raises", name, endian, f"value {v}: {impl.exc_sig(ex)} {ex!r}", value=v)
                 break
-    res.samples.append({"leb128": "every integer in [-2^14-2, 2^14+2] and +-(2^(7j)+-1), +-(2^(7j-1)+-1) for j<=10", "endian": endian})
+    res.samples.append({"leb128": "every integer in [-2^14-2, 2^14+2] and +-(2^(7j)+-1), +-(2^(7j-1)+-1) for j<=40", "endian": endian})
 
 
 # ---------------------------------------------------------------------------------------------- endianness histories
